@@ -263,7 +263,7 @@ class BSplines():
             knots = np.array([self.knots[0], *self.knots, self.knots[-1]])
             values = np.empty(d+2)
 
-            for i in range(n):
+            for i in range(self.ncells + d):
                 integ_deg = d+1
                 lbound = max(self.breaks[0], knots[i+1])
                 ubound = min(self.breaks[-1], knots[d+2+i])
@@ -284,10 +284,6 @@ class BSplines():
 
                 self._integrals[i] = (
                     knots[d+2+i] - knots[i+1])*inv_deg*(u - l)
-
-            if self.periodic:
-                for i in range(d):
-                    self._integrals[n+i] = self._integrals[d-i-1]
 
 # ===============================================================================
 
